@@ -878,7 +878,7 @@ def shrink(ctx: Ctx, c, o):
                     for plan in ([[] for _ in range(n)], px[:n], c.get("plan", [])[:n]):
                         cands.append(dict(form=base_forms, times=[hx(t) for t in fts[:n]], start=hx(fstart),
                                           nd=fnd, ops=[], plan=plan, history=hist, wgroup=c.get("wgroup"),
-                                          rows=1, cols=1, **{k: c[k] for k in ("entry", "detector") if c.get(k)}))
+                                          rows=1, cols=1, **{k: c[k] for k in ("entry", "detector", "float") if c.get(k)}))
     else:
         add(plan=[], history="fresh", rows=1, cols=1)
         if len(c.get("ops", [])) > 1:
